@@ -1,6 +1,7 @@
 package main
 
 import (
+	"go/ast"
 	"os/exec"
 	"regexp"
 	"go/token"
@@ -209,6 +210,7 @@ func cmdCheck(args []string) int {
 	obls = append(obls, eng.callersObligations(*prop)...)
 	obls = append(obls, eng.nonBlockingObligations(*prop)...)
 	obls = append(obls, eng.storedFieldsObligations(*prop)...)
+	obls = append(obls, eng.initValuesObligations(*prop)...)
 	tGen := time.Since(t0).Seconds() - tLoad
 	tmp, _ := os.MkdirTemp("", "verif-smt-")
 	if !*keep {
@@ -1204,4 +1206,121 @@ func staleFieldClauses(ld *Loader, errText string) []string {
 		}
 	}
 	return out
+}
+
+// initValuesObligations: "initvalues VAR all|some RE": decided on the syntax of the package (go/ast): the string
+// literals of the variable's initialiser (the variable must have one and must not be assigned anywhere else in
+// the package).
+func (eng *Engine) initValuesObligations(tag string) []*Obligation {
+	var out []*Obligation
+	var paths []string
+	for p := range eng.ld.pkgSpecs {
+		paths = append(paths, p)
+	}
+	sort.Strings(paths)
+	for _, p := range paths {
+		for _, rule := range eng.ld.pkgSpecs[p].InitValues {
+			has := false
+			for _, t := range rule.Tags {
+				if t == tag {
+					has = true
+				}
+			}
+			if !has {
+				continue
+			}
+			pk := eng.ld.byPath[p]
+			mode, reText := rule.Allowed[0], rule.Allowed[1]
+			re, err := regexp.Compile(reText)
+			o := &Obligation{Name: "init#" + rule.Label, Func: "initialiser of " + rule.Callee, Kind: "structural", Label: rule.Label, Tags: rule.Tags,
+				Pos: fmt.Sprintf("%s:%d", rule.File, rule.Line), Structural: true, Guard: "true",
+				Goal: fmt.Sprintf("%s string literals of the initialiser of %s match %q", mode, rule.Callee, reText)}
+			if err != nil {
+				o.StructMsg = "bad expression: " + err.Error()
+				out = append(out, o)
+				continue
+			}
+			var lits []string
+			foundDecl, assigned := false, false
+			for _, file := range pk.Syntax {
+				if strings.Contains(pk.Fset.Position(file.Pos()).Filename, "zz_verif_spec_gen") {
+					continue
+				}
+				ast.Inspect(file, func(n ast.Node) bool {
+					switch x := n.(type) {
+					case *ast.ValueSpec:
+						for i, nm := range x.Names {
+							if nm.Name == rule.Callee && pk.TypesInfo.Defs[nm] != nil && pk.TypesInfo.Defs[nm].Parent() == pk.Types.Scope() && i < len(x.Values) {
+								foundDecl = true
+								ast.Inspect(x.Values[i], func(m ast.Node) bool {
+									if bl, ok := m.(*ast.BasicLit); ok && bl.Kind == token.STRING {
+										if kv, isKV := parentKeyOf(x.Values[i], bl); !(isKV && kv) {
+											if sv, err := strconv.Unquote(bl.Value); err == nil {
+												lits = append(lits, sv)
+											}
+										}
+									}
+									return true
+								})
+							}
+						}
+					case *ast.AssignStmt:
+						for _, lhs := range x.Lhs {
+							root := lhs
+							for {
+								if ix, ok := root.(*ast.IndexExpr); ok {
+									root = ix.X
+									continue
+								}
+								break
+							}
+							if id, ok := root.(*ast.Ident); ok && id.Name == rule.Callee {
+								if obj := pk.TypesInfo.Uses[id]; obj != nil && obj.Parent() == pk.Types.Scope() {
+									assigned = true
+								}
+							}
+						}
+					}
+					return true
+				})
+			}
+			var bad []string
+			some := false
+			for _, l := range lits {
+				if re.MatchString(l) {
+					some = true
+				} else {
+					bad = append(bad, strconv.Quote(l))
+				}
+			}
+			switch {
+			case !foundDecl:
+				o.StructMsg = "no package-level variable " + rule.Callee + " with an initialiser"
+			case assigned:
+				o.StructMsg = rule.Callee + " is assigned outside its declaration: its initialiser does not say what it holds"
+			case len(lits) == 0:
+				o.StructMsg = "the initialiser of " + rule.Callee + " holds no string literal"
+			case mode == "all" && len(bad) > 0:
+				o.StructMsg = "values that do not match: " + strings.Join(bad, ", ")
+			case mode == "some" && !some:
+				o.StructMsg = "no value matches"
+			default:
+				o.StructOK = true
+			}
+			out = append(out, o)
+		}
+	}
+	return out
+}
+
+// parentKeyOf: is lit the key of a key-value element of the composite literal root (map keys are not values)?
+func parentKeyOf(root ast.Node, lit *ast.BasicLit) (isKey bool, found bool) {
+	ast.Inspect(root, func(n ast.Node) bool {
+		if kv, ok := n.(*ast.KeyValueExpr); ok && kv.Key == ast.Expr(lit) {
+			isKey, found = true, true
+			return false
+		}
+		return true
+	})
+	return
 }
